@@ -228,6 +228,7 @@ def register():
     F.LOOPS[('ParserBinary._parse_numeric_array', 0)] = loop_parse_numeric_array()
     register_arrays()
     register_mpint()
+    register_compose_arrays()
 
 
 # ---------------------------------------------------------------------------------------------------------------
@@ -362,3 +363,45 @@ def spec_parse_mpint_for_refinement(self, mpint_length, mpint_offset, negative):
 def register_mpint():
     I.CONTRACTS[ParserBinary._parse_mpint] = spec_parse_mpint
     F.LOOPS[('ParserBinary._parse_mpint', 0)] = loops.HavocLoop(['value'])
+
+
+# ---------------------------------------------------------------------------------------------------------------
+# ComposerBinary.compose_parsable_array(self, values, separator=bytearray())  for a sequence of *coded* items:
+#   _composed' = _composed ++ flat(enc_w(code(item)))            (empty separator only; otherwise the body is used)
+def spec_compose_parsable_array(self, values, separator=None):
+    if not (isinstance(values, SSeq) and isinstance(values.elem, tuple) and values.elem[0] in ('coded', 'enum')):
+        raise I.Decline()
+    if separator is not None and not (isinstance(separator, (bytes, bytearray)) and len(separator) == 0):
+        raise I.Decline()
+    if values.elem[0] == 'coded':
+        sp = values.elem[1]
+        codes, w = values, sp.width
+    else:
+        ecls = values.elem[1]
+        sizes = {m.value.get_code_size() for m in ecls} if all(hasattr(m.value, 'get_code_size') for m in ecls) else set()
+        if len(sizes) != 1:
+            raise I.Decline()
+        w = sizes.pop()
+        codes = SSeq(values.n, lambda j, at=values._at: V.enum_table(ecls, at(j), lambda m: m.value.code), 'list')
+    old = ops.as_seq(self.f['_composed'])
+    self.f['_composed'] = V.concat(old, S.flat_enc(codes, w, '!'), old.kind)
+    return None
+
+
+# VectorEnumCodeNumeric.compose, loop 0:  for item in self: (fallback item -> compose_parsable, member -> coded numeric)
+#   body_composer._composed == flat(enc_w(code(self[j])) for j < k)
+def loop_vector_enum_code_numeric_compose():
+    def state(frame, ctx, k):
+        me = frame.lookup('self')
+        items = me.f['_items']
+        if not (isinstance(items, SSeq) and isinstance(items.elem, tuple) and items.elem[0] == 'coded'):
+            raise E.Unsupported('VectorEnumCodeNumeric.compose over a non-coded symbolic item sequence')
+        sp = items.elem[1]
+        return {'body_composer._composed': S.flat_enc(SSeq(k, items._at, 'list'), sp.width, '!', 'bytes')}
+    return loops.FunctionalLoop(state)
+
+
+def register_compose_arrays():
+    from cryptoparser.common.base import VectorEnumCodeNumeric
+    I.CONTRACTS[ComposerBinary.compose_parsable_array] = spec_compose_parsable_array
+    F.LOOPS[('VectorEnumCodeNumeric.compose', 0)] = loop_vector_enum_code_numeric_compose()
